@@ -76,6 +76,8 @@ TLookupAll == /\ IsEv("lookupAll") /\ stack = <<>> /\ status \in {"done", "faile
               /\ E.ok => /\ \A i \in 1..Len(E.res) : E.res[i].n \in Node /\ E.res[i] = Proj(L1[E.res[i].n])
                           /\ {E.res[j].n : j \in 1..Len(E.res)} = Node /\ Len(E.res) = N
               /\ UNCHANGED vars
+\* the component's Init() got its answer from GetComponentByName (sc.ilook): no engine step of its own
+TILooked == IsEv("ilooked") /\ stack # <<>> /\ Top.n = E.n /\ sc.ilook[E.n] = E.t /\ UNCHANGED vars
 TProcInit == IsEv("procInit") /\ E.populated /\ E.depInited /\ ProcInit(E.n)
 TReset == /\ IsEv("scenario")
           /\ ResetTo(ScOf(E.sc))
@@ -83,7 +85,7 @@ TReset == /\ IsEv("scenario")
 TraceInit == l = 2 /\ Init
 TraceNext ==
   /\ \/ TGet \/ TCreateBegin \/ TAddFactory \/ TResolve \/ TBefore \/ TAps \/ TInit \/ TAfter
-     \/ TCheck \/ TCreateEnd \/ TRunReturn \/ TLookupReturn \/ TProcInit \/ TBinst \/ TRun \/ TLookupAll \/ TReset
+     \/ TCheck \/ TCreateEnd \/ TRunReturn \/ TLookupReturn \/ TILooked \/ TProcInit \/ TBinst \/ TRun \/ TLookupAll \/ TReset
   /\ (E.ev # "scenario" => StateMatchesP(E.st))
   \* the node's own configuration values are bound in the Resolve step (ahead of every dependency fetch), and never for a
   \* component a processor short-cuts past population
